@@ -10,7 +10,9 @@ fn ks(len: usize, ent: &mut Ent, boundaries: &[usize], budget: usize) -> Vec<usi
         return (0..len).collect();
     }
     let mut c: Vec<usize> = vec![0, 1, 28, 29, len - 1, len - 2];
-    for b in boundaries {
+    // every field / item boundary, or an evenly spread selection of them when there are thousands
+    let step = (boundaries.len() / (4 * budget.max(1))).max(1);
+    for b in boundaries.iter().step_by(step) {
         c.extend([b.saturating_sub(1), *b, b + 1]);
     }
     while c.len() < budget {
